@@ -112,33 +112,62 @@ def run_cell(md, c):
     return out
 
 
-def saveload(md, d):
-    """cell presence through save -> load (tested, not proved): a complete per-frame cell exactly when the input had one"""
+NEEDS_TOP = (".xtc", ".trr", ".dcd", ".nc", ".netcdf", ".ncdf", ".ncrst", ".crd", ".mdcrd", ".lammpstrj", ".xyz", ".xyz.gz",
+             ".rst7", ".dtr")
+
+
+def saveload(md, d, exts):
+    """every writable format x {no cell, triclinic cell, rectilinear cell} x {1, 3 frames}: what comes back.
+    -> {ext: {"none/1": outcome, ...}}; outcome = {"refused": errclass} | {"have": bool, "half": bool, "frames": n,
+    "per_frame": bool, "values_ok": bool} | {"load_error": ...}"""
     res = {}
-    nf = 3
     top = md.Topology()
     ch = top.add_chain()
     for i in range(4):
         top.add_atom("CA", md.element.carbon, top.add_residue("ALA", ch))
-    rng = np.random.RandomState(5)
-    xyz = rng.rand(nf, 4, 3).astype(np.float32)
-    L = np.array([[3.0, 4.0, 5.0], [3.1, 4.1, 5.1], [3.2, 4.2, 5.2]], dtype=np.float32)
-    A = np.array([[80.0, 95.0, 110.0]] * nf, dtype=np.float32)
-    for ext in ("h5", "nc", "xtc", "trr", "dcd", "lammpstrj", "pdb", "gro", "dtr"):
-        for cell in (True, False):
-            t = md.Trajectory(xyz.copy(), top, unitcell_lengths=L.copy() if cell else None, unitcell_angles=A.copy() if cell else None)
-            p = os.path.join(d, "c%d.%s" % (cell, ext))
-            try:
-                t.save(p)
-                u = md.load(p, top=top) if ext in ("nc", "xtc", "trr", "dcd", "lammpstrj", "dtr") else md.load(p)
-                ok_presence = bool(u._have_unitcell) == cell and (u.unitcell_lengths is None) == (u.unitcell_angles is None)
-                close = True
-                if cell and u._have_unitcell:
-                    close = bool(np.abs(u.unitcell_lengths - L).max() < 2e-3 and np.abs(u.unitcell_angles - A).max() < 2e-2
-                                 and u.unitcell_lengths.shape == (nf, 3))
-                res["%s/%s" % (ext, "cell" if cell else "nocell")] = {"presence_ok": ok_presence, "values_ok": close}
-            except Exception as e:  # noqa: BLE001
-                res["%s/%s" % (ext, "cell" if cell else "nocell")] = {"raised": type(e).__name__ + ": " + str(e)[:80]}
+    for ext in exts:
+        row = {}
+        for cell in ("none", "triclinic", "rectilinear"):
+            for nf in (1, 3):
+                rng = np.random.RandomState(5)
+                xyz = rng.rand(nf, 4, 3).astype(np.float32)
+                L = (np.array([[3.0, 4.0, 5.0]]) + 0.125 * np.arange(nf)[:, None]).astype(np.float32)
+                A = np.array([[80.0, 95.0, 110.0] if cell == "triclinic" else [90.0, 90.0, 90.0]] * nf, dtype=np.float32)
+                t = md.Trajectory(xyz.copy(), top, unitcell_lengths=L if cell != "none" else None,
+                                  unitcell_angles=A if cell != "none" else None)
+                p = os.path.join(d, "%s_%d%s" % (cell, nf, ext))
+                key = "%s/%d" % (cell, nf)
+                try:
+                    t.save(p)
+                except Exception as e:  # noqa: BLE001
+                    row[key] = {"refused": type(e).__name__}
+                    continue
+                try:
+                    files = [p]
+                    if ext in (".rst7", ".ncrst") and nf > 1:
+                        # one numbered file per frame (name.rst7.1 ...): give each its extension back to load it
+                        loaded = []
+                        for i in range(nf):
+                            q = os.path.join(d, "%s_%d_part%d%s" % (cell, nf, i + 1, ext))
+                            shutil.copy("%s.%d" % (p, i + 1), q)
+                            loaded.append(md.load(q, top=top))
+                    else:
+                        loaded = [md.load(p, top=top) if ext in NEEDS_TOP else md.load(p)]
+                    have = all(bool(u._have_unitcell) for u in loaded)
+                    anyhave = any(bool(u._have_unitcell) for u in loaded)
+                    half = any((u.unitcell_lengths is None) != (u.unitcell_angles is None) for u in loaded)
+                    frames = sum(u.n_frames for u in loaded)
+                    per_frame = all(u.unitcell_lengths is None or u.unitcell_lengths.shape == (u.n_frames, 3) for u in loaded)
+                    ok = True
+                    if have and cell != "none":
+                        gl = np.concatenate([u.unitcell_lengths for u in loaded])
+                        ga = np.concatenate([u.unitcell_angles for u in loaded])
+                        ok = bool(gl.shape == L.shape and np.abs(gl - L).max() < 2e-2 and np.abs(ga - A).max() < 5e-2)
+                    row[key] = {"have": have, "mixed": have != anyhave, "half": half, "frames": frames, "per_frame": per_frame,
+                                "values_ok": ok}
+                except Exception as e:  # noqa: BLE001
+                    row[key] = {"load_error": type(e).__name__ + ": " + str(e)[:60]}
+        res[ext] = row
     return res
 
 
@@ -149,7 +178,7 @@ def main():
     if payload.get("saveload"):
         d = tempfile.mkdtemp(prefix="c17sl-", dir=".")
         try:
-            out["saveload"] = saveload(md, d)
+            out["saveload"] = saveload(md, d, payload["saveload"])
         finally:
             shutil.rmtree(d, ignore_errors=True)
     print(json.dumps(out))
